@@ -74,3 +74,28 @@ where
         Ok(Index::from(records))
     }
 }
+
+#[cfg(test)]
+mod tests {
+    use std::num::NonZero;
+
+    use super::*;
+
+    #[tokio::test]
+    async fn test_read_index_with_non_utf8_name() -> io::Result<()> {
+        let src = b"sq\xf00\t13\t5\t80\t81\n";
+        let mut reader = Reader::new(&src[..]);
+
+        let expected = Index::from(vec![Record::new(
+            &b"sq\xf00"[..],
+            13,
+            5,
+            const { NonZero::new(80).unwrap() },
+            const { NonZero::new(81).unwrap() },
+        )]);
+
+        assert_eq!(reader.read_index().await?, expected);
+
+        Ok(())
+    }
+}
